@@ -152,6 +152,10 @@ def run(ctx):
     ctx.rule("C01.m", "slice lowering: a slice of a Cat/Replicate/nested slice is re-targeted to the one element that holds all its "
                       "bits with start made relative to it; the element offset restarts for every Cat entered; containment tests "
                       "evaluated exhaustively on a small integer domain against their specification", min_sites=8)
+    ctx.rule("C01.p", "statement printer: the text _generate_node prints for a statement tree (If with / without else, nested, Case with "
+                      "constant arms, empty arms, default, lists; the three assignment kinds; the target filter) executes the same "
+                      "assignments as the tree for every valuation of its conditions and selectors -- decided by interpreting the "
+                      "printer on model trees and parsing the text it returns", min_sites=8)
     ctx.rule("C01.l", "each always @(posedge clk) block pairs the clock and the statements of the same sync domain; the "
                       "simulator applies insert_resets too", min_sites=2)
 
@@ -743,6 +747,7 @@ def run(ctx):
 
     # ================================================================ C01.n
     _memory_init(ctx, mm)
+    _node_printer(ctx, vm)
 
 
 def _ieval(e, env):
@@ -889,6 +894,180 @@ def _slice_lowering(ctx, vm):
     idt = [n for n in vs.body if isinstance(n, ast.If) and any(isinstance(x, ast.Return) for x in n.body)]
     ok = bool(idt) and norm(idt[0].test) in ("start == 0 and len(node) == length", "len(node) == length and start == 0")
     ctx.ob("C01.m", VER, "visit_Slice", "slice dropped only when it covers the whole node", ok, "" if ok else f"{[norm(i.test) for i in idt]}", vs)
+
+
+def _node_printer(ctx, vm):
+    """_generate_node interpreted (lxs/pyconst.py) on model statement trees -- expressions are opaque tokens printed as themselves,
+    list_targets / is_variable are modelled -- and the Verilog text it returns parsed back (begin/end, if/else, case/default) into
+    a tree; both trees are then *executed* abstractly for every valuation of the conditions and every selector value (each arm's
+    value and one value outside the arms): the sequences of assignments (target, operator, source) must agree."""
+    import itertools
+    import re as _re
+    from .. import pyconst
+    from ..pyconst import NS, Native, Key
+    fn = vm.func("_generate_node")
+    funcs = {f.name: f for f in vm.tree.body if isinstance(f, ast.FunctionDef)}
+    consts = dict(pyconst.module_consts(vm.tree))
+
+    def A(l, r):
+        return NS(__cls__=("_Assign",), l=l, r=r, kind="A")
+
+    def IF(c, t, f):
+        return NS(__cls__=("If",), cond=c, t=t, f=f, kind="I")
+
+    def K(v):
+        return Key(__cls__=("Constant",), value=v, tok=f"{v}")
+
+    def CASE(test, cases):
+        return NS(__cls__=("Case",), test=test, cases=cases, kind="C")
+
+    def targets(n):
+        if isinstance(n, (list, tuple)):
+            return set().union(*[targets(x) for x in n]) if n else set()
+        if n["kind"] == "A":
+            return {n["l"]}
+        if n["kind"] == "I":
+            return targets(n["t"]) | targets(n["f"])
+        return set().union(*[targets(v) for v in n["cases"].values()]) if n["cases"] else set()
+    consts["_generate_expression"] = Native(lambda ns, e: ((e["tok"] if isinstance(e, NS) else str(e)), False))
+    consts["list_targets"] = Native(targets)
+    consts["is_variable"] = Native(lambda s_: isinstance(s_, str) and s_.startswith("v"))
+    at_cls = vm.classes.get("AssignType")
+    ats = {}
+    if at_cls is not None:
+        for st in at_cls.body:
+            if isinstance(st, ast.Assign) and isinstance(st.targets[0], ast.Name) and isinstance(st.value, ast.Constant):
+                ats[st.targets[0].id] = st.value.value
+    ctx.need(set(ats) >= {"BLOCKING", "NON_BLOCKING", "SIGNAL"}, "verilog.py: AssignType members are no longer literal class attributes")
+    consts["AssignType"] = NS(**ats)
+
+    # ---- model trees
+    k0, k1, k2, k5 = K(0), K(1), K(2), K(5)
+    trees = {
+        "case with an empty arm and a default": [CASE("sel", {k1: [A("x", "a")], k0: [], k2: [IF("c1", [A("y", "b")], [])], "default": [A("x", "d")]})],
+        "case without default": [CASE("sel", {k5: [A("x", "a"), A("y", "b")], k0: []})],
+        "case with only a default": [CASE("sel", {"default": [A("x", "a")]})],
+        "if / else, nested": [IF("c1", [A("x", "a"), IF("c2", [A("y", "b")], [A("y", "c")])], [IF("c3", [], [A("x", "e")])]), A("vz", "f")],
+        "if without else": [IF("c1", [A("x", "a")], []), A("y", "b")],
+        "statements in order": [A("x", "a"), A("x", "b"), [A("y", "c"), [A("x", "d")]]],
+        "empty case": [CASE("sel", {}), A("x", "a")],
+    }
+
+    def parse(text):
+        toks = _re.findall(r"[A-Za-z_0-9$']+|<=|[();:=]", text)
+        pos = [0]
+
+        def peek():
+            return toks[pos[0]] if pos[0] < len(toks) else None
+
+        def eat(t=None):
+            x = peek()
+            if x is None or (t is not None and x != t):
+                raise ValueError(f"expected {t!r}, found {x!r} at token {pos[0]}")
+            pos[0] += 1
+            return x
+
+        def block():
+            eat("begin")
+            b = stmts(("end",))
+            eat("end")
+            return b
+
+        def stmts(stop):
+            out = []
+            while peek() is not None and peek() not in stop:
+                if peek() == "if":
+                    eat()
+                    eat("(")
+                    c = eat()
+                    eat(")")
+                    t = block()
+                    f = []
+                    if peek() == "else":
+                        eat()
+                        f = block()
+                    out.append(("I", c, t, f))
+                elif peek() == "case":
+                    eat()
+                    eat("(")
+                    sel = eat()
+                    eat(")")
+                    arms = {}
+                    while peek() != "endcase":
+                        lab = eat()
+                        eat(":")
+                        if lab in arms:
+                            raise ValueError(f"arm {lab} printed twice")
+                        arms[lab] = block()
+                    eat("endcase")
+                    out.append(("C", sel, arms))
+                else:
+                    l = eat()
+                    op = eat()
+                    if op not in ("=", "<="):
+                        raise ValueError(f"operator {op!r}")
+                    r = eat()
+                    eat(";")
+                    out.append(("A", l, op, r))
+            return out
+        r = stmts(())
+        if peek() is not None:
+            raise ValueError(f"trailing text at token {pos[0]}")
+        return r
+
+    def run_model(n, val, at, flt, out):
+        if isinstance(n, (list, tuple)):
+            for x in n:
+                run_model(x, val, at, flt, out)
+        elif n["kind"] == "A":
+            if flt is None or n["l"] == flt:
+                op = "=" if at == ats["BLOCKING"] else ("<=" if at == ats["NON_BLOCKING"] else ("=" if n["l"].startswith("v") else "<="))
+                out.append((n["l"], op, n["r"]))
+        elif n["kind"] == "I":
+            run_model(n["t"] if val[n["cond"]] else n["f"], val, at, flt, out)
+        else:
+            arm = [v for k, v in n["cases"].items() if k != "default" and k["value"] == val[n["test"]]]
+            run_model(arm[0] if arm else n["cases"].get("default", []), val, at, flt, out)
+
+    def run_text(n, val, out):
+        for st in n:
+            if st[0] == "A":
+                out.append(st[1:])
+            elif st[0] == "I":
+                run_text(st[2] if val[st[1]] else st[3], val, out)
+            else:
+                arm = st[2].get(str(val[st[1]]))
+                run_text(arm if arm is not None else st[2].get("default", []), val, out)
+    n_ev = 0
+    for label, tree in trees.items():
+        bad = None
+        for at in sorted(ats.values()):
+            for flt in (None, "x", "y"):
+                try:
+                    got = pyconst.call(fn, {"ns": NS(), "at": at, "level": 1, "node": tree, "target_filter": flt}, consts=consts, funcs=funcs)
+                except pyconst.Unknowable as ex:
+                    ctx.need(False, f"_generate_node cannot be interpreted on a model statement tree ({ex})")
+                n_ev += 1
+                if got[0] != "return" or not isinstance(got[1], str):
+                    bad = bad or f"kind {at}, filter {flt}: the printer {'raises' if got[0] == 'raise' else 'returns ' + repr(got[1])[:60]}"
+                    continue
+                try:
+                    ptree = parse(got[1])
+                except ValueError as ex:
+                    bad = bad or f"kind {at}, filter {flt}: printed text does not parse ({ex}): {got[1][:120]!r}"
+                    continue
+                for conds in itertools.product((0, 1), repeat=3):
+                    for selv in (0, 1, 2, 5, 9):
+                        val = {"c1": conds[0], "c2": conds[1], "c3": conds[2], "sel": selv}
+                        want, have = [], []
+                        run_model(tree, val, at, flt, want)
+                        run_text(ptree, val, have)
+                        if want != have and bad is None:
+                            bad = f"assignment kind {at}, target filter {flt}, {val}: the tree executes {want}, the printed text executes {have}"
+        ctx.ob("C01.p", VER, "_generate_node", f"printed text executes like the tree: {label}", bad is None, bad or "", fn)
+    ctx.analysed["paths"] += n_ev
+    # the model's kind -> operator table is the one the simulator-side semantics asks for (C01.d decides the table itself)
+    ctx.ob("C01.p", VER, "_generate_node", "trees:present", len(trees) >= 7 and n_ev >= 60, f"{n_ev} printer runs", fn)
 
 
 def _memory_port_setup(ctx, mg):
